@@ -67,6 +67,11 @@ PLANS["C18"] = {
     "thorough": [J("connect", "p=1,f=2,s=1", 600), J("connectclean", "p=1,f=2,s=1", 600), J("connectfull", "f=1", 300)],
 }
 
+PLANS["C13"] = {
+    "quick": [J("hostile", "f=1", 80)],
+    "thorough": [J("hostilefull", "f=1", 600), J("hostileany", "f=1,s=1", 900)],
+}
+
 LEVELS = {}
 
 ASSUMPTIONS = {
